@@ -8,3 +8,12 @@ print("|---|---|---|---|")
 for m in rows:
     first = "caught as built" if not m.get("note") else m["note"]
     print("| %s | %s | %s | %s |" % (m["id"], m["needs_to_manifest"].replace("|", "/"), m["detected_by"].replace("|", "/"), first.replace("|", "/")))
+
+if __name__ == "__main__" and len(__import__("sys").argv) > 1 and __import__("sys").argv[1] == "--update-design":
+    import io, contextlib
+    p = os.path.join(V, "DESIGN.md"); s = open(p).read()
+    a = s.index("<!-- SEEDED-TABLE-START -->") + len("<!-- SEEDED-TABLE-START -->"); b = s.index("<!-- SEEDED-TABLE-END -->")
+    lines = ["| id | what it needs to manifest | caught by | first verdict |", "|---|---|---|---|"]
+    for m in rows:
+        lines.append("| %s | %s | %s | %s |" % (m["id"], m["needs_to_manifest"].replace("|", "/"), m["detected_by"].replace("|", "/"), (m.get("note") or "caught as built").replace("|", "/")))
+    open(p, "w").write(s[:a] + "\n" + "\n".join(lines) + "\n" + s[b:])
